@@ -11,10 +11,13 @@ OBST_TYPES = ["CAR", "TRUCK", "BUS", "BICYCLE", "PEDESTRIAN", "PARKED_VEHICLE"]
 
 
 class IdAlloc:
-    def __init__(self, rng, lo=1, hi=60, dense=False):
+    def __init__(self, rng, lo=1, hi=60, dense=False, zero=0.0):
         self.pool = list(range(lo, hi + 1))
         if not dense:
             rng.shuffle(self.pool)
+        if zero and rng.chance(zero):
+            # 0 is a legal id (the smallest one); the first objects allocated are lanelets
+            self.pool.insert(rng.randrange(0, 3), 0)
 
     def take(self):
         return self.pool.pop(0)
@@ -39,7 +42,7 @@ def _warp(rng, curved, far=0.0, far_range=(800.0, 5000.0)):
 
 def gen_network(rng, rows=None, cols=None, ids=None, curved=None, signs=True, lights=True, intersections=True,
                 overlap=None, stop_lines=True, opposite=True, n_pts=None, types=True, extra_links=True, far=0.0,
-                lattice=False, far_range=(800.0, 5000.0)):
+                lattice=False, far_range=(800.0, 5000.0), loops=0.0):
     """Grid of lanelets: row r+1 lies to the left of row r; lanelets of one row are chained.
 
     lattice=True: an unwarped, axis-parallel grid whose coordinates are small multiples of 1/2, so that all
@@ -116,6 +119,16 @@ def gen_network(rng, rows=None, cols=None, ids=None, curved=None, signs=True, li
                 if b not in by_id[a]["succ"]:
                     by_id[a]["succ"].append(b)
                     by_id[b]["pred"].append(a)
+    # closed courses (a roundabout, a race track): the last lanelet of a row leads back into the first one.  Only the
+    # topology is closed (the links), which is all the reference-following code looks at.
+    if loops and rng.chance(loops):
+        for r in range(rows):
+            first, last = grid[(r, 0)], grid[(r, cols - 1)]
+            if r in opp_rows:
+                first, last = last, first
+            if first not in by_id[last]["succ"]:
+                by_id[last]["succ"].append(first)
+                by_id[first]["pred"].append(last)
     # an extra lanelet lying across the grid (overlaps several lanelets, no relations)
     overlap = rng.chance(0.4) if overlap is None else overlap
     if overlap:
